@@ -131,6 +131,131 @@ Section Measure.
       + rewrite <- HPB. destruct (Nat.eqb a b); ring.
   Qed.
 
+  Lemma memb_nonempty_early a r : memb a r = true -> r <> [].
+  Proof. destruct r; [discriminate | congruence]. Qed.
+
+  (* ---------------- intersection (n operands; the sampled operands [todo] are among [all]) *)
+  Lemma inall_memb all a r : In r all -> inall all a = true -> memb a r = true.
+  Proof. unfold inall. rewrite forallb_forall. intros Hin H. apply H. exact Hin. Qed.
+
+  Theorem inter_n_law all todo a : (forall r, In r todo -> NoDup r /\ In r all) ->
+    prob (inter_tree_n mu all todo) a == if inall all a then mu a * inter_w mu all todo else 0.
+  Proof.
+    induction todo as [|r rest IH]; intros H.
+    - simpl. destruct (inall all a); ring.
+    - destruct (H r (or_introl eq_refl)) as [Hnd Hin].
+      assert (IH' := IH (fun r' Hr' => H r' (or_intror Hr'))). clear IH.
+      cbn [inter_tree_n inter_w]. rewrite prob_draw.
+      remember (prob (inter_tree_n mu all rest) a) as PR eqn:HPR.
+      rewrite (sumf_ext r _ (fun b => (if Nat.eqb a b then (if inall all b then mu b / size mu r else 0) else 0)
+                                      + PR * (if inall all b then 0 else mu b / size mu r))).
+      + rewrite sumf_plus, sumf_pick by assumption. rewrite sumf_scale, sumf_filter_size, IH'.
+        destruct (inall all a) eqn:E.
+        * rewrite (inall_memb all a r Hin E). unfold Qdiv. ring.
+        * destruct (memb a r); ring.
+      + intros b _. fold (inall all b). destruct (inall all b).
+        * simpl. destruct (Nat.eqb a b); ring.
+        * rewrite <- HPR. destruct (Nat.eqb a b); ring.
+  Qed.
+
+  Lemma inter_w_nonneg all todo : 0 <= inter_w mu all todo.
+  Proof.
+    induction todo as [|r rest IH]; cbn [inter_w]; [lra|].
+    pose proof (size_nonneg r) as SP.
+    pose proof (size_nonneg (filter (fun b => negb (inall all b)) r)) as SF.
+    assert (I : 0 <= / size mu r) by (apply Qinv_le_0_compat; exact SP).
+    assert (0 <= 1 / size mu r) by (unfold Qdiv; apply Qmult_le_0_compat; [lra | exact I]).
+    assert (0 <= size mu (filter (fun b => negb (inall all b)) r) / size mu r) by (unfold Qdiv; apply Qmult_le_0_compat; assumption).
+    set (X := 1 / size mu r) in *. set (Y := size mu (filter (fun b => negb (inall all b)) r) / size mu r) in *.
+    set (W := inter_w mu all rest) in *. assert (0 <= Y * W) by (apply Qmult_le_0_compat; lra). lra.
+  Qed.
+
+  Lemma inter_w_pos all r rest : r <> [] -> 0 < inter_w mu all (r :: rest).
+  Proof.
+    intros Hne. cbn [inter_w]. pose proof (size_pos r Hne) as SP. pose proof (inter_w_nonneg all rest) as WN.
+    pose proof (size_nonneg (filter (fun b => negb (inall all b)) r)) as SF.
+    assert (0 < 1 / size mu r) by (apply Qlt_shift_div_l; lra).
+    assert (0 <= size mu (filter (fun b => negb (inall all b)) r) / size mu r) by (apply Qle_shift_div_l; lra).
+    set (X := 1 / size mu r) in *. set (Y := size mu (filter (fun b => negb (inall all b)) r) / size mu r) in *.
+    set (W := inter_w mu all rest) in *. assert (0 <= Y * W) by (apply Qmult_le_0_compat; lra). lra.
+  Qed.
+
+  Theorem inter_n_member all todo a : (forall r, In r todo -> NoDup r /\ In r all) ->
+    ~ prob (inter_tree_n mu all todo) a == 0 -> forall r, In r all -> memb a r = true.
+  Proof.
+    intros H Hp r Hin. rewrite inter_n_law in Hp by assumption.
+    destruct (inall all a) eqn:E; [apply (inall_memb all a r Hin E) | exfalso; apply Hp; reflexivity].
+  Qed.
+
+  Theorem inter_n_support all r rest a : (forall r', In r' (r :: rest) -> NoDup r' /\ In r' all) ->
+    (forall r', In r' all -> memb a r' = true) -> 0 < prob (inter_tree_n mu all (r :: rest)) a.
+  Proof.
+    intros H Hall. rewrite inter_n_law by assumption.
+    assert (E : inall all a = true) by (unfold inall; apply forallb_forall; exact Hall). rewrite E.
+    destruct (H r (or_introl eq_refl)) as [_ Hin].
+    pose proof (inter_w_pos all r rest (memb_nonempty_early a r (Hall r Hin))). pose proof (mu_pos a). nra.
+  Qed.
+
+  Theorem inter_n_uniform all todo a a' : (forall r, In r todo -> NoDup r /\ In r all) ->
+    (forall r, In r all -> memb a r = true) -> (forall r, In r all -> memb a' r = true) ->
+    prob (inter_tree_n mu all todo) a * mu a' == prob (inter_tree_n mu all todo) a' * mu a.
+  Proof.
+    intros H H1 H2. rewrite !inter_n_law by assumption.
+    assert (E1 : inall all a = true) by (unfold inall; apply forallb_forall; exact H1).
+    assert (E2 : inall all a' = true) by (unfold inall; apply forallb_forall; exact H2).
+    rewrite E1, E2. ring.
+  Qed.
+
+  (* ---------------- polygon: triangle by cumulative areas, then bounding-box rejection *)
+  Lemma size_split (r : region) (c : nat -> bool) :
+    size mu r == size mu (filter c r) + size mu (filter (fun b => negb (c b)) r).
+  Proof. induction r as [|x r IH]; simpl; [ring|]. destruct (c x); simpl; rewrite IH; ring. Qed.
+
+  Theorem retry_law n B T a : NoDup B ->
+    prob (retry_tree mu n B T) a == if memb a B && memb a T then mu a / size mu B * geom (miss mu B T) n else 0.
+  Proof.
+    intros Hnd. induction n as [|n IH].
+    - simpl. destruct (memb a B && memb a T); ring.
+    - cbn [retry_tree geom]. rewrite prob_draw.
+      remember (prob (retry_tree mu n B T) a) as PR eqn:HPR.
+      rewrite (sumf_ext B _ (fun b => (if Nat.eqb a b then (if memb b T then mu b / size mu B else 0) else 0)
+                                      + PR * (if memb b T then 0 else mu b / size mu B))).
+      + rewrite sumf_plus, sumf_pick by assumption. rewrite sumf_scale, sumf_filter_size, IH. unfold miss.
+        destruct (memb a B), (memb a T); simpl; unfold Qdiv; ring.
+      + intros b _. destruct (memb b T).
+        * simpl. destruct (Nat.eqb a b); ring.
+        * rewrite <- HPR. destruct (Nat.eqb a b); ring.
+  Qed.
+
+  Lemma geom_closed q n : (1 - q) * geom q n == 1 - qpow q n.
+  Proof. induction n as [|n IH]; simpl; [ring|]. transitivity ((1 - q) + q * ((1 - q) * geom q n)); [ring|]. rewrite IH. ring. Qed.
+
+  Lemma hit_share B T : B <> [] -> size mu (tri_atoms B T) == (1 - miss mu B T) * size mu B.
+  Proof.
+    intros Hne. unfold miss, tri_atoms. pose proof (size_pos B Hne) as SP.
+    pose proof (size_split B (fun b => memb b T)) as S. cbv beta in S.
+    assert (F : (1 - size mu (filter (fun b => negb (memb b T)) B) / size mu B) * size mu B
+                == size mu B - size mu (filter (fun b => negb (memb b T)) B)) by (field; lra).
+    rewrite F. lra.
+  Qed.
+
+  Lemma memb_tri a B T : memb a (tri_atoms B T) = memb a B && memb a T.
+  Proof. apply eq_true_iff_eq. unfold tri_atoms. rewrite andb_true_iff, !memb_In, filter_In, memb_In. tauto. Qed.
+
+  (* every atom of triangle (B, T) is returned with probability mu a / (total area) * (1 - q^n), q^n = the probability
+     that the rejection loop of that triangle is still running after n rounds: uniform w.r.t. the area of the POLYGON *)
+  Theorem poly_law n tris a : (forall bt, In bt tris -> NoDup (fst bt) /\ fst bt <> []) ->
+    prob (poly_tree mu n tris) a ==
+    sumf tris (fun bt => if memb a (tri_atoms (fst bt) (snd bt))
+                         then mu a / tri_total mu tris * (1 - qpow (miss mu (fst bt) (snd bt)) n) else 0).
+  Proof.
+    intros H. unfold poly_tree. rewrite prob_choice_map. apply sumf_ext. intros [B T] Hin. cbn [fst snd].
+    destruct (H (B, T) Hin) as [Hnd Hne]. cbn [fst snd] in Hnd, Hne.
+    rewrite retry_law by assumption. rewrite memb_tri. destruct (memb a B && memb a T); [|ring].
+    rewrite hit_share by assumption. pose proof (size_pos B Hne) as SP.
+    rewrite <- geom_closed. unfold Qdiv. generalize (/ tri_total mu tris). intros iT. field. lra.
+  Qed.
+
   (* ---------------- consequences: membership, support, uniformity *)
   Lemma memb_nonempty a r : memb a r = true -> r <> [].
   Proof. destruct r; [discriminate | congruence]. Qed.
@@ -234,6 +359,35 @@ Proof.
     rewrite (sumf_ext (x :: l) _ (fun b => if Nat.eqb a b then 1 / qnat (length (x :: l)) else 0)).
     + apply sumf_pick. assumption.
     + intros b _. simpl. destruct (Nat.eqb a b); ring.
+Qed.
+
+(* PointSetRegion x region: only common points, every common point, all equally likely; rejection iff none *)
+Theorem ps_inter_member P O a : NoDup P -> ~ prob (ps_inter_tree P O) a == 0 -> memb a P = true /\ memb a O = true.
+Proof.
+  intros Hnd H. rewrite ps_inter_law in H by assumption.
+  destruct (memb a P), (memb a O); simpl in H; try (exfalso; apply H; reflexivity). split; reflexivity.
+Qed.
+
+Theorem ps_inter_support P O a : NoDup P -> memb a P = true -> memb a O = true -> 0 < prob (ps_inter_tree P O) a.
+Proof.
+  intros Hnd H1 H2. rewrite ps_inter_law by assumption. rewrite H1, H2. simpl.
+  assert (In a (filter (fun b => memb b O) P)) as Hin by (apply filter_In; split; [apply memb_In; assumption | assumption]).
+  destruct (filter (fun b => memb b O) P) as [|x l]; [contradiction|].
+  assert (0 < qnat (length (x :: l))) by (unfold qnat; change 0 with (inject_Z 0); rewrite <- Zlt_Qlt; simpl length; lia).
+  apply Qlt_shift_div_l; lra.
+Qed.
+
+Theorem ps_inter_uniform P O a a' : NoDup P -> memb a P = true -> memb a O = true -> memb a' P = true -> memb a' O = true ->
+  prob (ps_inter_tree P O) a == prob (ps_inter_tree P O) a'.
+Proof. intros Hnd H1 H2 H3 H4. rewrite !ps_inter_law by assumption. rewrite H1, H2, H3, H4. reflexivity. Qed.
+
+Theorem ps_inter_reject P O : prej (ps_inter_tree P O) == if existsb (fun b => memb b O) P then 0 else 1.
+Proof.
+  unfold ps_inter_tree. assert (E : existsb (fun b => memb b O) P = negb (match filter (fun b => memb b O) P with [] => true | _ => false end)).
+  { induction P as [|x P IH]; simpl; [reflexivity|]. destruct (memb x O); simpl; [reflexivity | exact IH]. }
+  rewrite E. destruct (filter (fun b => memb b O) P) as [|x l]; [reflexivity|]. simpl negb. cbv iota.
+  generalize (1 / qnat (length (x :: l))). intros w. generalize (x :: l). intros c.
+  induction c as [|y c IH]; [reflexivity|]. cbn [map prej] in *. rewrite IH. simpl. ring.
 Qed.
 
 (* ---------------------------------------------------------------- primitives *)
